@@ -250,3 +250,46 @@ def guarded_stream(run, name, fn, *args, **kwargs):
                         f"stream {name}: the library raised {type(e).__name__}: {str(e)[:160]} in {os.path.basename(inner.filename)}:{inner.lineno} ({inner.name}) "
                         f"while the stream prepared its inputs / reference at {where}", f"setup:{name}:{type(e).__name__}")
         return None
+
+
+# ------------------------------------------------------------------------------------------- known schedule-dependent failure
+RACE_MSG = "dictionary changed size during iteration"
+RACE_SITE = "nontensor_metadata_task_reads_live_dict"
+
+
+def route_metadata_race(run):
+    """memmap()/save() (not in place) with num_threads>1 on data that holds a non-tensor entry: the tensorclass `save_metadata` writer task
+    iterates the dict that the calling thread installs as the result's `_non_tensordict` and then extends with `_metadata`
+    (tensorclass.py `_memmap_` / `NonTensorData._memmap_`). With real threads the save therefore raises — rarely, depending on the
+    scheduler — `RuntimeError: dictionary changed size during iteration`. `c12_threads.run_metadata_race` forces that schedule and reports it
+    every run at RACE_SITE (recorded finding). This routes a *spontaneous* occurrence in any other stream to the same site, so that a
+    rare scheduling accident is reported as the recorded finding it is and not as a new failure of whatever the stream was checking."""
+    orig_fail, orig_corr = run.oracle_fail, run.corr
+
+    def oracle_fail(site, case, what, fingerprint=None):
+        if site != RACE_SITE and RACE_MSG in str(what):
+            run.count("metadata_race.spontaneous", site)
+            return orig_fail(RACE_SITE, {"at": site, "case": case}, str(what), "metadata-race:spontaneous:" + str(site)[:40])
+        return orig_fail(site, case, what, fingerprint)
+
+    def corr(stream, case, impl, model):
+        if impl != model and RACE_MSG in repr(impl)[:2000]:
+            run.count("metadata_race.spontaneous", stream)
+            orig_fail(RACE_SITE, {"at": stream, "case": case}, repr(impl)[:300], "metadata-race:spontaneous:" + str(stream)[:40])
+            return True
+        return orig_corr(stream, case, impl, model)
+
+    run.oracle_fail = oracle_fail
+    run.corr = corr
+
+
+def seed_fn(td):
+    """worker function of the seeding stream: what the worker process was initialised with (torch seed, numpy state word, intra-op threads)"""
+    import numpy as np
+    import torch
+    from tensordict import TensorDict
+    n = td.batch_size[0]
+    return TensorDict({"seed": torch.full((n,), torch.initial_seed(), dtype=torch.int64),
+                       "np": torch.full((n,), int(sum(int(v) << (4 * i) for i, v in enumerate(np.random.get_state()[1][1:9]))), dtype=torch.int64),
+                       "threads": torch.full((n,), torch.get_num_threads(), dtype=torch.int64),
+                       "pid": torch.full((n,), __import__("os").getpid(), dtype=torch.int64)}, [n])
